@@ -115,6 +115,12 @@ func (c *context) lookupParserType(scope *gotypes.Scope) {
 	for _, name := range names {
 		obj := scope.Lookup(name)
 
+		// Only type declarations count: a variable, a function result or an
+		// alias of the parser type is not another parser.
+		if typeName, ok := obj.(*gotypes.TypeName); !ok || typeName.IsAlias() {
+			continue
+		}
+
 		namedType, ok := obj.Type().(*gotypes.Named)
 		if !ok {
 			continue
